@@ -132,6 +132,66 @@ def run(ctx):
                                              "count": keys.get(k), "N": N, **pipeline.case_json(g, dict(cfg0, th=th))})
         if len(samples) < 1 and len(g) < 10:
             samples.append({"nt": to_nt(g), "thresholds": [list(t) for t in ths]})
+    # ---------------- directed: large classes with a nearly universal feature; presentation options must not enter the filter
+    import impl
+    from shexer.shaper import Shaper
+    from shexer import consts as C
+    stats["large_class_cases"] = 0
+    for N in ([250] if ctx.tier == "quick" else [250, 2500]):
+        for dec in (0, 1, 2, -1):
+            missing = rng.randint(1, 2)
+            g = []
+            for i in range(N):
+                g.append((I('big%d' % i), RDF_TYPE, I('Big')))
+                g.append((I('big%d' % i), EX + 'always', L('v')))
+                if i >= missing:
+                    g.append((I('big%d' % i), EX + 'nearly', L('v')))
+            cfg = gen.default_cfg()
+            cfg['decimals'] = dec
+            cfg['report'] = rng.choice(['mixed', 'ratio', 'abs'])
+            rs = pipeline.run_impl([(g, dict(cfg, th=th)) for th in ((N - missing, N), (1, 1))])
+            stats["large_class_cases"] += 1
+            for th, r in zip(((N - missing, N), (1, 1)), rs):
+                if r[0] != 'ok':
+                    viol.append({"what": "implementation gave no result on the large class", "outcome": list(r[:3]), "N": N, "decimals": dec})
+                    continue
+                props = {st['prop'] for sh in r[1]['shapes'] for st in sh['stmts']}
+                has = EX + 'nearly' in props
+                if th == (1, 1) and has:
+                    viol.append({"what": "at threshold 1 a feature of %d of %d instances remains (decimals=%d)" % (N - missing, N, dec),
+                                 "decimals": dec, "N": N, "with_feature": N - missing, "shexc_tail": r[2][-400:]})
+                if th != (1, 1) and not has:
+                    viol.append({"what": "a feature of %d of %d instances is dropped at threshold exactly %d/%d (decimals=%d)" % (N - missing, N, N - missing, N, dec),
+                                 "decimals": dec, "N": N, "with_feature": N - missing, "shexc_tail": r[2][-400:]})
+    # ---------------- directed: one Shaper asked for thresholds that differ by 1e-10 around a k/n boundary, against fresh Shapers
+    stats["near_threshold_sequences"] = 0
+    for i in range(20 if ctx.tier == "quick" else 200):
+        n = rng.randint(2, 9)
+        k = rng.randint(1, n - 1)
+        g = [(I('q%d' % j), RDF_TYPE, I('Q')) for j in range(n)] + [(I('q%d' % j), EX + 'some', L('v')) for j in range(k)] \
+            + [(I('q%d' % j), EX + 'all', L('w')) for j in range(n)]
+        rng.shuffle(g)
+        cfg = gen.default_cfg()
+        kw = impl.shaper_kwargs(cfg)
+        b = k / n
+        seq = rng.choice([[b, b + 2e-10, 1.0, b + 1e-10], [b + 1e-10, b, 0.0, b + 2e-10], [b, b + 1e-10], [1.0, b + 1e-10, b]])
+        nt = to_nt(g)
+        warm = Shaper(raw_graph=nt, input_format=C.NT, **kw)
+        stats["near_threshold_sequences"] += 1
+        for j, t in enumerate(seq):
+            try:
+                a = warm.shex_graph(string_output=True, acceptance_threshold=t)
+                f = Shaper(raw_graph=nt, input_format=C.NT, **kw).shex_graph(string_output=True, acceptance_threshold=t)
+            except Exception as e:
+                viol.append({"what": "call raised %s: %s" % (type(e).__name__, str(e)[:100]), "thresholds": seq, "nt": nt})
+                break
+            if a != f:
+                viol.append({"what": "call %d of one Shaper (threshold %r, after %r) differs from a fresh Shaper at that threshold: a feature of %d/%d "
+                                     "instances is %s" % (j + 1, t, seq[:j], k, n, "kept" if 'some' in a else "dropped"),
+                             "thresholds": seq, "nt": nt, "warm": a[-300:], "fresh": f[-300:]})
+                break
     return base.std_result(ctx, cases, viol, dis, base.known_lines(kf, reproduced), stats, nontriv, samples,
                            "per random graph and configuration: fresh Shapers on every threshold of the k/n grid of the class sizes present "
-                           "(all ordered pairs compared); non-trivial = some pair of thresholds really drops a key", DEPS)
+                           "(all ordered pairs compared); classes of 250 (2500) instances with a feature missing from one or two, under every decimals setting, at "
+                           "thresholds (N-m)/N and 1; one Shaper asked for thresholds 1e-10 apart around a k/n boundary, against fresh Shapers; "
+                           "non-trivial = some pair of thresholds really drops a key", DEPS)
